@@ -8,8 +8,10 @@
 EXTENDS Naturals, Sequences, FiniteSets, TLC, Json
 CONSTANTS Emit, MaxEntries,
           Side,                   \* "t2s": archives x tar2sqfs options;  "s2t": the fixed image x sqfs2tar options
-          CanonMutatesTarget      \* deviation (pinned tree before the fix): canonicalize_name() runs on the target itself, so targets
+          CanonMutatesTarget,     \* deviation (pinned tree before the fix): canonicalize_name() runs on the target itself, so targets
                                   \* that are NOT below the new root come out normalised (absolute -> relative, '//' and './' removed)
+          NoRetargetCoversHardLinks   \* deviation: --no-symlink-retarget also leaves HARD link targets alone (they name archive members and
+                                      \* have to follow the members to their new place, whatever -S says)
 
 IsPrefix(p, q) == Len(p) <= Len(q) /\ SubSeq(q, 1, Len(p)) = p
 Drop(p, n) == SubSeq(p, n + 1, Len(p))
@@ -29,16 +31,24 @@ Retarget(t, noRetarget) ==                              \* documented: adjusted 
 (* ---- tar2sqfs --root-becomes r ---- *)
 Comp == {"r", "x", "y"}
 Paths == {<<"r">>, <<"r", "x">>, <<"r", "y">>, <<"x">>, <<"y">>, <<"y", "x">>, <<"r", "x", "y">>}
+HTargets == {"r/x", "x"}                                \* hard link targets: the member r/x (below the new root) or x (outside)
+HPath(t) == IF t = "r/x" THEN <<"r", "x">> ELSE <<"x">>
 Entry == [path : Paths, kind : {"dir", "file"}, tgt : {"-"}] \cup [path : Paths, kind : {"slink"}, tgt : Targets]
+         \cup [path : Paths, kind : {"hlink"}, tgt : HTargets]
 Root == <<"r">>
 T2S(arch, rootBecomes, noRetarget) ==       \* sequence of output entries [path, kind, tgt]; path <<>> = attributes of the image root
   IF ~rootBecomes THEN arch
   ELSE LET kept == SelectSeq(arch, LAMBDA e : IsPrefix(Root, e.path)) IN
        [i \in 1..Len(kept) |->
           [path |-> Drop(kept[i].path, 1), kind |-> kept[i].kind,
-           tgt |-> IF kept[i].kind = "slink" THEN Retarget(kept[i].tgt, noRetarget) ELSE "-"]]
+           tgt |-> IF kept[i].kind = "slink" THEN Retarget(kept[i].tgt, noRetarget)
+                   ELSE IF kept[i].kind = "hlink"
+                   THEN (IF kept[i].tgt = "r/x" /\ ~(NoRetargetCoversHardLinks /\ noRetarget) THEN "x" ELSE kept[i].tgt)      \* follows the member, -S or not
+                   ELSE "-"]]
 (* the entry that equals the new root must be a directory, else the run is refused *)
-T2SRefused(arch, rootBecomes) == rootBecomes /\ \E i \in 1..Len(arch) : arch[i].path = Root /\ arch[i].kind # "dir"
+T2SRefused(arch, rootBecomes) ==
+  \/ rootBecomes /\ \E i \in 1..Len(arch) : arch[i].path = Root /\ arch[i].kind # "dir"
+  \/ rootBecomes /\ \E i \in 1..Len(arch) : arch[i].kind = "hlink" /\ IsPrefix(Root, arch[i].path) /\ arch[i].tgt = "x"     \* the member it names is dropped: dangling
 
 (* ---- sqfs2tar --subdir ... --keep-as-dir --root-becomes n ---- *)
 (* image: the fixed tree  r/ r/x r/y(=hard link of r/x) x y/ y/x ; entries in scan order *)
@@ -82,6 +92,7 @@ VARIABLES arch, rb, nr, subs, kad, rn, nl, ae, nk, nx
 vars == <<arch, rb, nr, subs, kad, rn, nl, ae, nk, nx>>
 AE0 == [path |-> <<"r">>, kind |-> "dir", mtime |-> "5", xa |-> FALSE, late |-> FALSE]
 WellFormed(a) == /\ \A i, j \in 1..Len(a) : i # j => a[i].path # a[j].path
+                 /\ \A j \in 1..Len(a) : a[j].kind = "hlink" => \E i \in 1..(j - 1) : a[i].kind = "file" /\ a[i].path = HPath(a[j].tgt)      \* a hard link names an earlier regular member
                  /\ \A i, j \in 1..Len(a) : (i # j /\ IsPrefix(a[i].path, a[j].path)) => (a[i].kind = "dir" /\ i < j)   \* parents are directories and come first
 A1 == << [path |-> <<"x">>, kind |-> "file", tgt |-> "-"] >>
 Init == IF Side = "t2s"
@@ -97,6 +108,9 @@ Init == IF Side = "t2s"
 Next == UNCHANGED vars
 Spec == Init /\ [][Next]_vars
 (* a target that does not lie below the new root is stored byte for byte *)
+HardLinksFollow == T2SRefused(arch, rb) \/ \A i \in 1..Len(T2S(arch, rb, nr)) :
+                     LET e == T2S(arch, rb, nr)[i] IN
+                     e.kind = "hlink" => \E j \in 1..Len(T2S(arch, rb, nr)) : T2S(arch, rb, nr)[j].kind = "file" /\ T2S(arch, rb, nr)[j].path = HPath(e.tgt)
 TargetsUntouched == \A i \in 1..Len(T2S(arch, rb, nr)) :
                       LET e == T2S(arch, rb, nr)[i] IN
                       e.kind = "slink" => \E a \in 1..Len(arch) : arch[a].kind = "slink" /\
